@@ -11,6 +11,9 @@
 //   c_compile       the emitted code was rejected by gcc
 //   literal15       a RealDouble leaf does not survive print_double (15 significant digits)   [known finding D19]
 //   bigint_literal  an Integer >= 2^63 is emitted as a C integer constant                      [known finding D23]
+//   unevaluated_paren  an UnevaluatedExpr operand of lower precedence printed without parentheses [known finding D22]
+//   recip_denominator  1/f(x) printed for Cot/Csc/Sec/Coth/Csch/Sech without parentheses in a denominator [D25]
+//   int_division    integer numerator over an all-Integer Piecewise: int/int                   [known finding D26]
 #include "evalfam.h"
 #include <symengine/printers.h>
 #include <symengine/printers/codegen.h>
@@ -193,6 +196,91 @@ static bool has_recip_denominator(const Basic &b)
     for (auto &a : b.get_args())
         if (has_recip_denominator(*a))
             return true;
+    return false;
+}
+
+// D22: CodePrinter::bvisit(const UnevaluatedExpr&) prints its operand bare while Precedence reports Atom: the
+// operand's own precedence is lost when the parent is a product, a coefficient times it, a unary minus or 1/(...)
+static int sym_prec(const RCP<const Basic> &b)
+{
+    Precedence p;
+    return (int)p.getPrecedence(b);
+}
+static bool uneval_loses(const Basic &b, int need, bool strict)
+{
+    if (!is_a<UnevaluatedExpr>(b))
+        return false;
+    RCP<const Basic> arg = b.get_args()[0];
+    while (is_a<UnevaluatedExpr>(*arg))
+        arg = arg->get_args()[0];
+    int pr = sym_prec(arg);
+    return strict ? pr <= need : pr < need;
+}
+static bool has_unevaluated_precedence_loss(const Basic &b)
+{
+    const int MUL = (int)PrecedenceEnum::Mul;
+    {
+        auto one_arg = [&](const Basic &x) { return x.get_args()[0]; };
+        switch (b.get_type_code()) { // follow the printer through the RewriteTrigVisitor rewrites
+            case SYMENGINE_COT:
+                return has_unevaluated_precedence_loss(*div(one, tan(one_arg(b))));
+            case SYMENGINE_CSC:
+                return has_unevaluated_precedence_loss(*div(one, sin(one_arg(b))));
+            case SYMENGINE_SEC:
+                return has_unevaluated_precedence_loss(*div(one, cos(one_arg(b))));
+            case SYMENGINE_ACOT:
+                return has_unevaluated_precedence_loss(*atan(div(one, one_arg(b))));
+            case SYMENGINE_ACSC:
+                return has_unevaluated_precedence_loss(*asin(div(one, one_arg(b))));
+            case SYMENGINE_ASEC:
+                return has_unevaluated_precedence_loss(*acos(div(one, one_arg(b))));
+            case SYMENGINE_COTH:
+                return has_unevaluated_precedence_loss(*div(one, tanh(one_arg(b))));
+            case SYMENGINE_CSCH:
+                return has_unevaluated_precedence_loss(*div(one, sinh(one_arg(b))));
+            case SYMENGINE_SECH:
+                return has_unevaluated_precedence_loss(*div(one, cosh(one_arg(b))));
+            case SYMENGINE_ACOTH:
+                return has_unevaluated_precedence_loss(*atanh(div(one, one_arg(b))));
+            case SYMENGINE_ACSCH:
+                return has_unevaluated_precedence_loss(*asinh(div(one, one_arg(b))));
+            case SYMENGINE_ASECH:
+                return has_unevaluated_precedence_loss(*acosh(div(one, one_arg(b))));
+            default:
+                break;
+        }
+    }
+    if (is_a<Pow>(b)) {
+        const Pow &p = down_cast<const Pow &>(b);
+        if (eq(*p.get_exp(), *minus_one) && uneval_loses(*p.get_base(), MUL, true))
+            return true;
+    }
+    if (is_a<Mul>(b)) {
+        const Mul &m = down_cast<const Mul &>(b);
+        int dens = 0;
+        for (auto &p : m.get_dict())
+            if ((is_a<Integer>(*p.second) || is_a<Rational>(*p.second)) && down_cast<const Number &>(*p.second).is_negative()
+                && !eq(*p.first, *E))
+                dens++;
+        for (auto &p : m.get_dict()) {
+            if (eq(*p.second, *one) && uneval_loses(*p.first, MUL, false))
+                return true;
+            if (eq(*p.second, *minus_one) && uneval_loses(*p.first, MUL, dens == 1))
+                return true;
+        }
+    }
+    if (is_a<Add>(b)) {
+        for (auto &p : down_cast<const Add &>(b).get_dict())
+            if (!eq(*p.second, *one) && uneval_loses(*p.first, MUL, false))
+                return true;
+    }
+    for (auto &a : b.get_args())
+        if (has_unevaluated_precedence_loss(*a))
+            return true;
+    if (is_a<Add>(b))
+        for (auto &p : down_cast<const Add &>(b).get_dict())
+            if (has_unevaluated_precedence_loss(*p.first))
+                return true;
     return false;
 }
 
@@ -464,6 +552,10 @@ std::string hx_run(const std::string &op, std::string &oracle)
     if (oracle == "ok" && has_recip_denominator(*e)) {
         oracle = "FAIL:recip_denominator:" + esc(s).substr(0, 200);
         stat("recip_denominator");
+    }
+    if (oracle == "ok" && has_unevaluated_precedence_loss(*e)) {
+        oracle = "FAIL:unevaluated_paren:" + esc(s).substr(0, 200);
+        stat("unevaluated_paren");
     }
     if (oracle == "ok" && !flt && has_int_division(*e)) {
         oracle = "FAIL:int_division:" + esc(s).substr(0, 200);
